@@ -6,6 +6,22 @@ TECH = "bounded exhaustive enumeration (stateless explicit-state exploration of 
 
 # property -> (category, text, note, technique)
 CHECKS = {
+ "C07": ("model_checking",
+  "Bounded exhaustive enumeration of (all 9450 configurations x boundary input lengths x worst-case patterns) plus edge configurations at 64 KiB / 200 KB, all strings over 4 symbols up to length 4 (6), gzip header lattices and preset dictionaries: deflateBound is queried on the configured stream, the output buffer has exactly that size with a guard page behind it, and one deflate(Z_FINISH) must return Z_STREAM_END. compress/compress2/compress_slice into compressBound likewise.",
+  "The bound is a claim over all inputs of a length; the patterns are the known worst cases (incompressible, flat, 9-bit literals, alternating). Known finding F5 (exact fit on raw streams returns Z_OK; shared with zlib-ng) is reported as KNOWN-FINDING.",
+  TECH),
+ "C10": ("model_checking",
+  "Twin executions over the shared families: every CPU-feature mask (hook H1), allocator and output-buffer garbage, buffer misalignment, default allocator, reuse after reset with a different earlier history - all compared call by call with the reference execution; threads: a controlled scheduler (baton, sequentially consistent) runs 2-3 real threads with scheduling points at API call boundaries and at the library's CPU-feature probes and enumerates all schedules with at most 2 (3) preemptions (iterative preemption bounding), each thread compared with its solo run.",
+  "Trusted: hooks H1/H1b (mask, probe hook, cache reset). Not covered: plain-memory data races that no instrumented serialisation exposes (no race detector pass), AVX-512/NEON variants. A schedule cap is reported in the evidence when hit.",
+  "twin differential executions + exhaustive preemption-bounded schedule enumeration under a controlled scheduler"),
+ "C11": ("model_checking",
+  "Bounded exhaustive enumeration of (input x configuration x flush kind x flush position x variant): every position of every string over 3 symbols up to length 6 (7) and lattice/every position of boundary-forcing shapes; at each completed flush the reference decoder R2, given only the bytes emitted so far, must reproduce exactly the input supplied so far, sync/full flushes must be byte aligned and end in 00 00 FF FF, and the data after a full flush must decode as an independent stream with empty history.",
+  "Trusted: R2. Positions/configurations outside the families are not covered.",
+  TECH),
+ "C15": ("model_checking",
+  "Invariant monitor on every call of every execution of the shared families (cursor/avail/total accounting, Z_BUF_ERROR rule), decode under three schedules with 0..3 trailing garbage bytes (consumed == stream length), the same chunkings through the Rust wrappers, one-shot helper lengths, and explicit enumeration to depth 4 (5) of inflate programs with inflateSync/prime/validate with totals compared with the sums after every call.",
+  "Totals after Z_NEED_DICT are not judged (zlib is self-inconsistent there).",
+  TECH),
  "C18": ("fault_enumeration",
   "Fault enumeration over ~70 C-API call histories (init/calls/end, copies mid-stream, reset/params/dictionary, several streams sharing one allocator, inflateBack) and ~40 gz-layer histories: each is run once to count its N allocation requests and then once for every k with only request k failing and once for every k with all requests from k failing. Guard-paged allocator with freed blocks unmapped (use-after-free faults), byte-balanced global allocator for gz. Oracle: the faulted call reports Z_MEM_ERROR / NULL / error, End on the faulted stream is safe and releases nothing foreign, re-initialisation works, everything is released exactly once, a bystander stream is unaffected.",
   "Trusted: the harness allocators. Histories outside the enumerated set and independent double faults other than fail-from-k are not covered.",
